@@ -28,6 +28,9 @@ BRANCH_FEATURES = {
     'tap+phase': dict(tap=0.96, phi=-0.04),
     'asym': dict(b1=0.02, b2=0.07, g1=0.015, g2=0.002),
     'charging': dict(b=0.06, g=0.004),
+    # features that interact on ONE branch: the shunts sit inside / outside the ideal transformer
+    'tap+charging': dict(tap=0.93, b=0.08, g=0.004),
+    'tap+phase+asym': dict(tap=1.07, phi=0.05, b1=0.03, b2=0.06, g1=0.01, g2=0.002),
     'base': dict(Sn=50.0, Vn1f=1.1),          # Vn1 = 1.1 * bus kV, own MVA base
     'off+parallel': dict(parallel_off=True),
 }
